@@ -21,9 +21,22 @@ Proof. intros k H. unfold cstop in H. apply andb_true_iff in H. destruct H as [H
 Lemma estop_cstop : forall k, estop k = true -> cstop k = true.
 Proof. intros k H. destruct (estop_facts _ H) as [Hb [Hc _]]. unfold cstop. rewrite Hb, Hc. reflexivity. Qed.
 
+(* a token that cannot continue an assignment-expression (a comma can follow one) *)
+Definition astop (k: kind) : bool := cstop k && negb (kind_in k tbl_ASSIGNMENT_OPS).
+Lemma astop_facts : forall k, astop k = true -> cstop k = true /\ kind_in k tbl_ASSIGNMENT_OPS = false.
+Proof. intros k H. unfold astop in H. apply andb_true_iff in H. destruct H as [H1 H2]. apply negb_true_iff in H2. tauto. Qed.
+Lemma estop_astop : forall k, estop k = true -> astop k = true.
+Proof. intros k H. unfold astop. rewrite (estop_cstop _ H). destruct (estop_facts _ H) as [_ [_ [Ha _]]]. rewrite Ha. reflexivity. Qed.
+Lemma comma_astop : astop K_COMMA = true.
+Proof. reflexivity. Qed.
+
 (* the first tokens of something an expression can start with (no declaration start, no `({`) *)
+Definition startk (k: kind) : bool := negb (kind_in k tbl_DECL_START) && negb (kind_eqb k K_RPAREN).
+Lemma startk_facts : forall k, startk k = true -> kind_in k tbl_DECL_START = false /\ kind_eqb k K_RPAREN = false.
+Proof. intros k H. unfold startk in H. apply andb_true_iff in H. destruct H as [H1 H2]. apply negb_true_iff in H1. apply negb_true_iff in H2. tauto. Qed.
+
 Definition first_ok (kvs: list (kind * str)) : Prop :=
-  exists k v rest, kvs = (k, v) :: rest /\ kind_in k tbl_DECL_START = false /\ kind_eqb k K_LBRACE = false /\
+  exists k v rest, kvs = (k, v) :: rest /\ startk k = true /\ kind_eqb k K_LBRACE = false /\
     (kind_eqb k K_LPAREN = true ->
      exists k2 v2 rest2, rest = (k2, v2) :: rest2 /\ kind_eqb k2 K_LBRACE = false /\ kind_in k2 tbl_DECL_START = false).
 
@@ -37,7 +50,7 @@ Lemma first_ok_parkv : forall x, first_ok x -> first_ok (parkv x).
 Proof.
   intros x [k [v [rest [-> [H1 [H2 _]]]]]]. unfold parkv. exists K_LPAREN, (s2l "("), (((k, v) :: rest) ++ [(K_RPAREN, s2l ")")]).
   split; [reflexivity|]. split; [reflexivity|]. split; [reflexivity|]. intros _.
-  exists k, v, (rest ++ [(K_RPAREN, s2l ")")]). split; [reflexivity|]. split; assumption.
+  exists k, v, (rest ++ [(K_RPAREN, s2l ")")]). split; [reflexivity|]. split; [exact H2|exact (proj1 (startk_facts _ H1))].
 Qed.
 
 Section Levels.
@@ -53,7 +66,7 @@ Definition LevelS (run: nat -> M P (ParserBase.node P)) (stopk: kind -> bool) (k
 
 Definition CastS := LevelS (p_cast_expression P) quiet.
 Definition CondS := LevelS (p_conditional_expression P) cstop.
-Definition AsgS := LevelS (p_assignment_expression P) estop.
+Definition AsgS := LevelS (p_assignment_expression P) astop.
 Definition ExprS := LevelS (p_expression P) estop.
 
 (* binary-expression with nothing to climb over, then no `?` *)
@@ -98,7 +111,7 @@ Qed.
 Lemma cond_to_asg : forall kvs X, first_ok kvs -> CondS kvs X -> AsgS kvs X.
 Proof.
   intros kvs X Hfo HC s le stop l0 HS HU Hst.
-  destruct (estop_facts _ Hst) as [_ [_ [Hasg _]]]. pose proof (estop_cstop _ Hst) as Hcst.
+  destruct (astop_facts _ Hst) as [Hcst Hasg].
   destruct (asg_pre kvs s le (stop :: l0) Hfo HS HU) as [s2 [HU2 Hasn]].
   destruct (HC s2 le stop l0 HS HU2 Hcst) as [f0 [N [s3 [H3 [HU3 HN]]]]].
   destruct (peek_up P s3 stop l0 HU3) as [s4 [Hpk [HU4 _]]].
@@ -110,7 +123,7 @@ Qed.
 Lemma asg_to_expr : forall kvs X, AsgS kvs X -> ExprS kvs X.
 Proof.
   intros kvs X HA s le stop l0 HS HU Hst. destruct (estop_facts _ Hst) as [_ [_ [_ Hcomma]]].
-  destruct (HA s le stop l0 HS HU Hst) as [f0 [N [s1 [H1 [HU1 HN]]]]].
+  destruct (HA s le stop l0 HS HU (estop_astop _ Hst)) as [f0 [N [s1 [H1 [HU1 HN]]]]].
   destruct (accept_miss P s1 stop l0 K_COMMA HU1 Hcomma) as [s2 [Ha [HU2 _]]].
   exists (S f0), N, s2. split; [|split; [exact HU2|exact HN]].
   intros f Hf. destruct f as [|f]; [lia|]. rewrite (expr_eq P). unfold bind at 1. rewrite (H1 f) by lia.
@@ -132,7 +145,7 @@ Proof.
   refine (paren_cast P X lp rpt x n le' l _ _ _ Hq _ s HU).
   - rewrite Hlp. reflexivity.
   - rewrite Hrp. reflexivity.
-  - rewrite Hx. exact Hds.
+  - rewrite Hx. exact (proj1 (startk_facts _ Hds)).
   - intros s0 HU0. apply (HE s0 (x :: le') rpt (n :: l)); [exact HSe0|exact HU0|rewrite Hrp; reflexivity].
 Qed.
 End Levels.
